@@ -96,14 +96,15 @@ def run_mc(pid, tier, out):
                 out["violations"].append(("design-level: termination violated in family %s" % fam, path))
     # design-level reproduction of the listed known findings (expected failures)
     for kf in [k for k in core.known_findings() if k.get("kind") == "known" and k["property"] == pid]:
-        inv = {"C07": "I_C07_bounds", "C05": "I_C05_bound"}.get(pid)
+        inv, fam, what = {"C07": ("I_C07_bounds", "BX", "overlapping ingests"),
+                          "C05": ("I_C05_bound", "TX", "an observation above 60% of the hot buffer")}.get(pid, (None, None, None))
         if not inv:
             continue
-        r = core.run_tlc("MC_Sim", mc_cfg("BX", [inv], []), heap="6g")
+        r = core.run_tlc("MC_Sim", mc_cfg(fam, [inv], []), heap="6g")
         if core.tlc_failed(r["out"]):
-            raise MachineryError("TLC failed on MC_Sim family BX:\n" + r["out"][-3000:])
+            raise MachineryError("TLC failed on MC_Sim family %s:\n%s" % (fam, r["out"][-3000:]))
         v = core.tlc_violation(r["out"])
-        samples.append({"mc_family": "BX (overlapping ingests, expected failure)", "known_finding": kf["id"],
+        samples.append({"mc_family": "%s (%s, expected failure)" % (fam, what), "known_finding": kf["id"],
                         "invariant": inv, "reproduced_at_design_level": bool(v)})
     out["states"] += states
     out["transitions"] += trans
